@@ -1,0 +1,12 @@
+//go:build !verif
+// +build !verif
+
+package vm
+
+import "github.com/skx/evalfilter/v2/code"
+
+// verifState is empty unless the `verif` build tag is given.
+type verifState struct{}
+
+// verifStep is a no-op unless the `verif` build tag is given.
+func (vm *VM) verifStep(ip int, op code.Opcode) error { return nil }
